@@ -1,12 +1,14 @@
 /* Helper child for C20: echoes exactly what it was handed and does what ./ac.ctl scripts.
    ./ac.ctl = "<exit code> <mode>"   mode bit 1: copy stdin to stdout, bit 2: copy stdin to stderr,
-                                     bit 4: stay alive after the header until a signal ends it (SIGALRM after 8 s at the latest).
+                                     bit 4: stay alive after the header until a signal ends it (SIGALRM after 8 s at the latest),
+                                     bit 8: be silent for 1.2 s after the header and again after the copied bytes (streams stay open).
    stdout:  "A <hex>" per argv string, "E <hex>" per environment string, "." then the copied bytes. */
 #include <stdio.h>
 #include <stdlib.h>
 #include <string.h>
 #include <unistd.h>
 #include <errno.h>
+#include <time.h>
 
 extern char** environ;
 
@@ -28,6 +30,12 @@ static int write_all(int fd, const char* b, size_t n)
   return 0;
 }
 
+static void silent(void)
+{
+  struct timespec ts = {1, 200000000};
+  while(nanosleep(&ts, &ts) != 0 && errno == EINTR) { }
+}
+
 int main(int argc, char** argv)
 {
   int code = 0, mode = 0;
@@ -38,6 +46,7 @@ int main(int argc, char** argv)
   printf(".\n");
   fflush(stdout);
   if(mode & 4) { alarm(8); for(;;) pause(); }
+  if(mode & 8) silent();
   if(mode & 3) {
     static char buf[65536];
     for(;;) {
@@ -48,5 +57,6 @@ int main(int argc, char** argv)
       if((mode & 2) && write_all(2, buf, (size_t)r)) return 96;
     }
   }
+  if(mode & 8) silent();
   return code;
 }
